@@ -87,7 +87,7 @@ try:
         sh("git checkout -q -- . && git clean -fdq", cwd=wt)
         r["confirmed"] = rc0 == 0 and rc1 != 0 and rcb == 0
         if r["confirmed"]:
-            r["detected_by"] = checks_on_repo(patch)
+            r["detected_by"] = checks_on_repo(patch) if not os.environ.get("VS_NOCHECK") else {"pending": True}
             dst = os.path.join(VERIF, "seeded", f"{pid}-{m}")
             os.makedirs(dst, exist_ok=True)
             for f in os.listdir(d):
